@@ -115,7 +115,7 @@ def key_of(obj):
     return (type(obj).__name__, id(el) if el is not None else id(obj))
 
 
-def traverse(root, access, rng, max_objects=4000, max_depth=9, max_items=6, skip=frozenset()):
+def traverse(root, access, rng, max_objects=4000, max_depth=12, max_items=6, skip=frozenset()):
     """access(obj, cls, name, ctx_el) -> value (may raise).  Returns the number of objects visited."""
     seen = set()
     alive = []      # keeps every visited element proxy alive so that id() stays unique (determinism)
@@ -199,3 +199,70 @@ def canon(root):
         if e.text is not None and not e.text.strip() and len(e):
             e.text = None
     return etree.tostring(root, method="c14n")
+
+
+# ----------------------------------------------------------------------------------------- static side: getters that CAN create
+_MUT_PREFIX = ("get_or_add", "_add_", "add_", "_insert_", "insert_", "get_or_change_to", "_remove_", "remove_", "rewrite_", "clear_")
+_MUT_EXACT = {"append", "insert", "remove", "addprevious", "addnext", "clear", "replace"}
+
+# creating getters that the effect table need not show as creating, each for a stated reason (reviewed by hand)
+STATIC_EXEMPT = {
+    "Presentation.slide_layouts": "creates p:sldMasterIdLst only on a presentation part that lists no master: an empty list lists nothing (erasable)",
+    "Presentation.slide_master": "as Presentation.slide_layouts",
+    "Presentation.slide_masters": "as Presentation.slide_layouts",
+    "SlideMaster.slide_layouts": "creates p:sldLayoutIdLst only on a master that lists no layout (erasable)",
+    "_Cell.fill": "creates a:tcPr (an erasable container); observed as such only on decks whose cells lack it",
+    "_Cell.text_frame": "a:txBody is required in a:tc by the schema: nothing to create in a valid part",
+    "DataLabel.text_frame": "documented creator",
+    "CT_TextBody.defRPr": "element-level helper behind the Font getters listed (adds-empty)",
+    "CT_DLbls.defRPr": "element-level helper behind DataLabels.font (adds-empty)",
+    "CT_Legend.defRPr": "element-level helper behind Legend.font (adds-empty)",
+    "BaseAxisElement.defRPr": "element-level helper behind TickLabels.font (adds-empty)",
+    "CT_GroupShape.chExt": "not reached by a public getter (used by recalculate_extents, a writing path)",
+    "CT_GroupShape.chOff": "as CT_GroupShape.chExt",
+    "_PattFill.fore_color": "reached as FillFormat.fore_color (a listed finding)",
+    "_PattFill.back_color": "reached as FillFormat.back_color (a listed finding)",
+}
+
+
+def static_creators(src_root):
+    """public getters (property / lazyproperty) whose body - or a helper of the same class it calls, two levels deep - calls a
+    method that creates, inserts or removes XML: what the effect table must account for.  -> sorted ['Class.name']"""
+    import ast
+    import os
+
+    def is_getter(fn):
+        for d in fn.decorator_list:
+            n = d.id if isinstance(d, ast.Name) else getattr(d, "attr", None)
+            if n in ("property", "lazyproperty"):
+                return True
+        return False
+    out = set()
+    for dp, _, fs in os.walk(src_root):
+        if "/opc" in dp:
+            continue
+        for f in fs:
+            if not f.endswith(".py"):
+                continue
+            tree = ast.parse(open(os.path.join(dp, f)).read())
+            for cls in [n for n in ast.walk(tree) if isinstance(n, ast.ClassDef)]:
+                methods = {m.name: m for m in cls.body if isinstance(m, ast.FunctionDef)}
+
+                def calls(fn, depth=0, seen=frozenset()):
+                    res = set()
+                    for n in ast.walk(fn):
+                        if isinstance(n, ast.Call) and isinstance(n.func, ast.Attribute):
+                            nm = n.func.attr
+                            if nm.startswith(_MUT_PREFIX) or nm in _MUT_EXACT:
+                                res.add(nm)
+                            if isinstance(n.func.value, ast.Name) and n.func.value.id == "self" and nm in methods and nm not in seen and depth < 2:
+                                res |= calls(methods[nm], depth + 1, seen | {nm})
+                        if (isinstance(n, ast.Attribute) and isinstance(n.value, ast.Name) and n.value.id == "self" and n.attr in methods
+                                and n.attr not in seen and depth < 2 and is_getter(methods[n.attr]) and methods[n.attr] is not fn):
+                            res |= calls(methods[n.attr], depth + 1, seen | {n.attr})
+                    return res
+                for m in methods.values():
+                    if is_getter(m) and not m.name.startswith("_") and not cls.name.startswith("_MoviePic") and not cls.name.startswith("_OleObject") \
+                            and cls.name not in ("TextFitter", "_BaseWorkbookWriter") and calls(m):
+                        out.add(f"{cls.name}.{m.name}")
+    return sorted(out)
